@@ -157,12 +157,12 @@ fn k_convert_from_gearsets_positions() {
 
 //@use_common
 
-//@unit props=C17 label=B tier=quick native=1 fn=gearsets::GearSets::from_existing bound="by execution: resources/tests/gearsets/simple.dat (45221 bytes): every truncation and 7 single-byte corruptions at each of the first 1200 positions, the last 64 and every 53rd position in between"
+//@unit props=C17 label=B tier=quick native=1 fn=gearsets::GearSets::from_existing bound="by execution: resources/tests/gearsets/simple.dat (45221 bytes): every truncation and 7 single-byte corruptions at each of the first 1200 positions, the last 64 and every 53rd position in between (thorough tier: every 5th)"
 //@desc damaged gear-set files (truncated, any header or content byte damaged) yield None or a value, never a panic
 #[test]
 fn native_gearsets_damaged_nopanic() {
     let f = |b: &[u8]| { let _ = GearSets::from_existing(b); };
-    let cases = native_sweep(&native_resource("gearsets/simple.dat"), 1200, 53, &f);
+    let cases = native_sweep(&native_resource("gearsets/simple.dat"), 1200, if native_thorough() { 5 } else { 53 }, &f);
     println!("NATIVE native_gearsets_damaged_nopanic cases={cases}");
 }
 
